@@ -2,30 +2,42 @@
    channel, many senders and receivers) on the T1 machine; the channel lock is
    the fiber_mutex of T1K (object 0).  Harness: rt/h_mchan.c.
 
+   The code in /repo keeps blocked senders and blocked receivers in SEPARATE
+   lists (fix 30a0183: a completed send wakes a receiver, a completed receive
+   wakes a sender).  The original code had ONE list for both (finding F-C11:
+   a wake-up that landed on a fiber of the wrong kind was absorbed and a fiber
+   queued underneath stayed blocked forever).  The boolean [onelist] of the
+   state selects the original behaviour; it is used only by the regression
+   witness multichan_no_stranded_one_list_refuted (MChanProofs.v).  Lock-step
+   cases run with onelist = false (third case parameter absent or 0).
+
    Client cells (trace loc = 500 + cell; same layout as ChanK.v):
-     3      channel->waiters  (top of the ONE list of blocked senders AND receivers;
-                               0 = empty, 1000+t = fiber t)
+     3      channel->send_waiters (one-list variant: channel->waiters, the ONE list);
+     23     channel->recv_waiters  (top of the list; 0 = empty, 1000+t = fiber t)
      15, 19 high, low (plain words, protected by the lock)
      4t+2   fiber t's scratch = its link in the waiter list
      4i+1   buffer[i]
 
-   send(v):  loop { lock; hi := high; lo := low; if (hi - lo < size) break; WAIT }
-             hi := high; buffer[hi mod size] := v; hi := high; high := hi + 1; WAKE; unlock
-   receive:  loop { lock; hi := high; lo := low; if (hi > lo) break; WAIT }
+   send(v):  loop { lock; hi := high; lo := low; if (hi - lo < size) break; WAIT(send_waiters) }
+             hi := high; buffer[hi mod size] := v; hi := high; high := hi + 1;
+             WAKE(recv_waiters); unlock
+   receive:  loop { lock; hi := high; lo := low; if (hi > lo) break; WAIT(recv_waiters) }
              lo := low; m := buffer[lo mod size]; buffer[lo mod size] := 0;
-             lo := low; low := lo + 1; WAKE; unlock; return m
-   WAIT:     w := waiters; self->scratch := w; waiters := self; self->state := WAITING;
+             lo := low; low := lo + 1; WAKE(send_waiters); unlock; return m
+   WAIT(L):  w := L; self->scratch := w; L := self; self->state := WAITING;
              mutex_to_unlock := lock (silent); yield   [maintenance unlocks, sleeps]
-   WAKE:     w := waiters; if (w) { f := waiters; x := f->scratch; waiters := x;
+   WAKE(L):  w := L; if (w) { f := L; x := f->scratch; L := x;
              f->scratch := NULL; f->state := READY; schedule(f) }
    unlock = fiber_mutex_unlock (yields when it handed the lock over).
-   case: params = dmax, power_of_2_size; ops (1, v) send v, (2,_) receive. *)
+   case: params = dmax, power_of_2_size [, onelist (0/1, default 0)];
+   ops (1, v) send v, (2,_) receive. *)
 From Coq Require Import List ZArith Lia Bool Arith.
 From LF Require Import Conc T1K.
 Import ListNotations.
 Local Open Scope Z_scope.
 
 Definition c_waiters : nat := 3.
+Definition c_rwaiters : nat := 23.
 Definition c_high : nat := 15.
 Definition c_low : nat := 19.
 Definition c_scr (t : nat) : nat := (4 * t + 2)%nat.
@@ -50,11 +62,11 @@ Inductive mc :=
 | MRBuf (i : nat) (p : list mop) (k : nat)
 | MRClr (m : Z) (p : list mop) (k : nat)
 | MRLow2 (m : Z) (p : list mop) (k : nat)
-(* internal_wake; r = value the call will report *)
-| MWk0 (r : Z) (p : list mop) (k : nat)               (* counter advanced: read waiters *)
-| MWk1 (r : Z) (p : list mop) (k : nat)
-| MWk2 (r : Z) (p : list mop) (k : nat)
-| MWk3 (r : Z) (f : nat) (p : list mop) (k : nat)
+(* internal_wake; c = cell of the list head it pops, r = value the call will report *)
+| MWk0 (c : nat) (r : Z) (p : list mop) (k : nat)     (* counter advanced: read the list head *)
+| MWk1 (c : nat) (r : Z) (p : list mop) (k : nat)
+| MWk2 (c : nat) (r : Z) (p : list mop) (k : nat)
+| MWk3 (c : nat) (r : Z) (f : nat) (p : list mop) (k : nat)
 | MWk4 (r : Z) (f : nat) (p : list mop) (k : nat)
 | MWk5 (r : Z) (f : nat) (p : list mop) (k : nat)
 | MWk6 (r : Z) (f : nat) (p : list mop) (k : nat)
@@ -80,10 +92,16 @@ Definition start (p : list mop) (k : nat) : stack mc :=
 
 Definition bidx (size v : Z) : nat := Z.to_nat (v mod size).
 
+(* the list a blocked fiber queues itself on / the list a completed operation pops *)
+Definition wait_list (ol : bool) (a : att) : nat :=
+  if ol then c_waiters else match a with ASend _ => c_waiters | ARecv => c_rwaiters end.
+Definition wake_list (ol : bool) (a : att) : nat :=
+  if ol then c_waiters else match a with ASend _ => c_rwaiters | ARecv => c_waiters end.
+
 Definition unlock (r : Z) (p : list mop) (k : nat) : stack mc :=
   [UAdd 0; UYield; FC (MUnl r p k)].
 
-Definition cret (size : Z) (m : kmem) (t : nat) (c : mc) (v : Z) : kmem * list Z * stack mc :=
+Definition cret (ol : bool) (size : Z) (m : kmem) (t : nat) (c : mc) (v : Z) : kmem * list Z * stack mc :=
   match c with
   | MNext p k => (m, [], start p k)
   | MLocked a p k => (m, [], [CRead c_high; FC (MHigh a p k)])
@@ -91,28 +109,28 @@ Definition cret (size : Z) (m : kmem) (t : nat) (c : mc) (v : Z) : kmem * list Z
   | MLow a hi p k =>
       match a with
       | ASend x => if hi - v <? size then (m, [], [CRead c_high; FC (MSIdx x p k)])
-                   else (m, [], [CRead c_waiters; FC (MWt1 a p k)])
+                   else (m, [], [CRead (wait_list ol a); FC (MWt1 a p k)])
       | ARecv => if v <? hi then (m, [], [CRead c_low; FC (MRIdx p k)])
-                 else (m, [], [CRead c_waiters; FC (MWt1 a p k)])
+                 else (m, [], [CRead (wait_list ol a); FC (MWt1 a p k)])
       end
   | MSIdx x p k => (m, [], [CWrite (c_buf (bidx size v)) x; FC (MSBuf p k)])
   | MSBuf p k => (m, [], [CRead c_high; FC (MSHigh2 p k)])
-  | MSHigh2 p k => (m, [], [CWrite c_high (v + 1); FC (MWk0 0 p k)])
+  | MSHigh2 p k => (m, [], [CWrite c_high (v + 1); FC (MWk0 (wake_list ol (ASend 0)) 0 p k)])
   | MRIdx p k => (m, [], [CRead (c_buf (bidx size v)); FC (MRBuf (bidx size v) p k)])
   | MRBuf i p k => (m, [], [CWrite (c_buf i) 0; FC (MRClr v p k)])
   | MRClr x p k => (m, [], [CRead c_low; FC (MRLow2 x p k)])
-  | MRLow2 x p k => (m, [], [CWrite c_low (v + 1); FC (MWk0 x p k)])
-  | MWk0 r p k => (m, [], [CRead c_waiters; FC (MWk1 r p k)])
-  | MWk1 r p k => if v =? 0 then (m, [], unlock r p k)
-                  else (m, [], [CRead c_waiters; FC (MWk2 r p k)])
-  | MWk2 r p k => (m, [], [CRead (c_scr (tid_of_name v)); FC (MWk3 r (tid_of_name v) p k)])
-  | MWk3 r f p k => (m, [], [CWrite c_waiters v; FC (MWk4 r f p k)])
+  | MRLow2 x p k => (m, [], [CWrite c_low (v + 1); FC (MWk0 (wake_list ol ARecv) x p k)])
+  | MWk0 c0 r p k => (m, [], [CRead c0; FC (MWk1 c0 r p k)])
+  | MWk1 c0 r p k => if v =? 0 then (m, [], unlock r p k)
+                     else (m, [], [CRead c0; FC (MWk2 c0 r p k)])
+  | MWk2 c0 r p k => (m, [], [CRead (c_scr (tid_of_name v)); FC (MWk3 c0 r (tid_of_name v) p k)])
+  | MWk3 c0 r f p k => (m, [], [CWrite c0 v; FC (MWk4 r f p k)])
   | MWk4 r f p k => (m, [], [CWrite (c_scr f) 0; FC (MWk5 r f p k)])
   | MWk5 r f p k => (m, [], [FStWrite f ST_READY; FC (MWk6 r f p k)])
   | MWk6 r f p k => (wake m f, ev t 901 919 (Zn f), unlock r p k)
   | MUnl r p k => (m, retev t k r, start p (S k))
   | MWt1 a p k => (m, [], [CWrite (c_scr t) v; FC (MWt2 a p k)])
-  | MWt2 a p k => (m, [], [CWrite c_waiters (fname t); FC (MWt3 a p k)])
+  | MWt2 a p k => (m, [], [CWrite (wait_list ol a) (fname t); FC (MWt3 a p k)])
   | MWt3 a p k => (m, [], [FStWrite t ST_WAITING; FC (MWt4 a p k)])
   | MWt4 a p k => (set_slot_mutex m t (Some 0%nat), [], [YRead; FC (MWt5 a p k)])
   | MWt5 a p k => (m, [], attempt a p k)
@@ -129,32 +147,34 @@ Definition cret (size : Z) (m : kmem) (t : nat) (c : mc) (v : Z) : kmem * list Z
 Definition is_mslots (f : frame mc) : bool := match f with MSlots => true | _ => false end.
 Definition in_maint (r : stack mc) : bool := existsb is_mslots r.
 
-Definition kstepC (size : Z) (m : kmem) (t : nat) (s : stack mc) : kmem * list Z * stack mc :=
+Definition kstepC (ol : bool) (size : Z) (m : kmem) (t : nat) (s : stack mc) : kmem * list Z * stack mc :=
   match s with
   | KNext q cnt wc h :: r =>
       match nnext m h with
       | O => if (0 <? cnt) && in_maint r
              then (m, ev t (l_next h) 9 0, YNext ST_RUNNING :: KSpin q cnt wc :: r)
-             else kstep mc (cret size) m t s
-      | S _ => kstep mc (cret size) m t s
+             else kstep mc (cret ol size) m t s
+      | S _ => kstep mc (cret ol size) m t s
       end
-  | _ => kstep mc (cret size) m t s
+  | _ => kstep mc (cret ol size) m t s
   end.
 
-Record st := { mem : kmem; stk : nat -> stack mc; nthr : nat; csize : Z }.
+Record st := { mem : kmem; stk : nat -> stack mc; nthr : nat; csize : Z; onelist : bool }.
 
 Definition step (s : st) (t : nat) : st * list Z :=
-  let '(m1, e1, s1) := kstepC (csize s) (mem s) t (stk s t) in
-  ({| mem := m1; stk := upd (stk s) t s1; nthr := nthr s; csize := csize s |}, e1).
+  let '(m1, e1, s1) := kstepC (onelist s) (csize s) (mem s) t (stk s t) in
+  ({| mem := m1; stk := upd (stk s) t s1; nthr := nthr s; csize := csize s; onelist := onelist s |}, e1).
 
 Definition status_of (s : st) (t : nat) : status :=
   if (t <? nthr s)%nat then kstatus mc (mem s) t (stk s t) else SDone.
 
-(* size = 2^k slots; lock free (counter 1) *)
-Definition init (k : nat) (progs : list (list mop)) : st :=
+(* size = 2^k slots; lock free (counter 1); ol = the original one-list variant *)
+Definition init_ol (ol : bool) (k : nat) (progs : list (list mop)) : st :=
   {| mem := kinit 1 (fun _ => 1);
      stk := fun t => [Start; FC (MNext (nth t progs []) 1)];
-     nthr := length progs; csize := 2 ^ Z.of_nat k |}.
+     nthr := length progs; csize := 2 ^ Z.of_nat k; onelist := ol |}.
+(* the code in /repo: separate lists *)
+Definition init (k : nat) (progs : list (list mop)) : st := init_ol false k progs.
 
 Definition M : machine :=
   {| mstate := st; mstep := step; mstatus := status_of; mthreads := nthr |}.
@@ -164,7 +184,8 @@ Definition dec_op (p : Z * Z) : mop :=
 
 Definition run_case (l : list Z) : list Z :=
   match decode_case l with
-  | Some c => run_all M (init (Z.to_nat (nthZ (c_params c) 1)) (map (map dec_op) (c_progs c))) [] (c_sched c)
+  | Some c => run_all M (init_ol (nthZ (c_params c) 2 =? 1) (Z.to_nat (nthZ (c_params c) 1))
+                                 (map (map dec_op) (c_progs c))) [] (c_sched c)
                       (Z.to_nat (nthZ (c_params c) 0))
   | None => [(-1)%Z]
   end.
